@@ -110,7 +110,15 @@ def post_measure(ctx, which):
                           "%s = %r outside [0, 1]" % (fn, got), c)
         for i, (g, w_) in enumerate(zip(got, want)):
             if abs(g - w_) > TOL:
-                ctx.violation("C17/%s/differs-from-definition" % fn,
+                mech = ""
+                try:
+                    if hr.float_frame_hazard([rivs, eivs], fs,
+                                             b.get("window", 15.0) if which ==
+                                             "tmeasure" else None):
+                        mech = "/float-frame-index"
+                except Exception:
+                    pass
+                ctx.violation("C17/%s/differs-from-definition%s" % (fn, mech),
                               "differs-from-definition", fn,
                               "%s = %r, brute-force triplet definition gives %r "
                               "(settings %s)" % (fn, got, tuple(want), short(c["kwargs"], 120)),
@@ -180,6 +188,16 @@ def run_shard(spec, ctx):
     install(ctx, mods)
     h = mods["hierarchy"]
     r = ctx.rng("hier")
+    if spec["name"].endswith("-0"):
+        # fixed probe on the default 0.1 s grid with boundaries away from the grid
+        with warnings.catch_warnings():
+            warnings.simplefilter("ignore")
+            try:
+                h.tmeasure([np.array([[0.0, 1.65625], [1.65625, 4.3125]])],
+                           [np.array([[0.0, 2.65625], [2.65625, 3.875],
+                                      [3.875, 4.3125]])], window=None, frame_size=0.1)
+            except Exception:
+                ctx.count("driver.raised")
     for i in range(spec["n"]):
         ev = (i % 4 == 3)
         rivs, rlabs, eivs, elabs, fs = small_hierarchy(r, for_evaluate=ev)
